@@ -8,7 +8,7 @@ SLOTS = {
     "edist": ["base", "hot", "none"],
     "comp": ["base", "alt"],
     "comp_add": ["c6hot", "d0thin"],
-    "comp_clear": [None],
+    "comp_clear": [None, "assign-empty"],      # composition.clear()  /  plasma.composition = []  (an electrons-only plasma, both ways)
     "geometry": ["box", "sphere"],
     "gtr": [None, 0.3],
     "integ": [0.1, 0.07],
@@ -217,7 +217,10 @@ def apply(s, cfg, slot, v):
         p.composition.add(_mkspecies(spec))
         cfg["comp_over"][v] = 1
     elif slot == "comp_clear":
-        p.composition.clear()
+        if v is None:
+            p.composition.clear()
+        else:
+            p.composition = []
         cfg["comp"], cfg["comp_over"] = "cleared", {}
     elif slot == "geometry":
         p.geometry = _geometry(v)
